@@ -6,7 +6,7 @@ import numpy as np
 
 from vlib import clock, contracts, graphs as G, gens, oracles
 from vlib.base import import_dsw, REPO
-from vlib.coding import table_of, rand_table_spec, encode_budget, decode_budget, monitored, bits_equal
+from vlib.coding import ArgGuard, table_of, rand_table_spec, encode_budget, decode_budget, monitored, bits_equal
 
 ID = "C05"
 LEVEL = "exploration"
@@ -223,7 +223,11 @@ def check_encode(ctx, case):
     msg = gens.as_message(bits, case["dtype"])
     live = int((G.out_degrees(acc) > 0).sum())
     ref, digits = oracles.ref_encode(bits, acc, start, fast, shuf)
+    guard = ArgGuard(message=msg, accessor=acc, shuffles=shuf)
     out = monitored(dsw.encode, encode_budget(len(bits), live), msg, acc, _typed_start(ctx, start), is_faster=fast, shuffles=shuf)
+    if guard.changed():
+        # writable arguments on purpose: a table silently rewritten for this graph decides differently on the next one
+        ctx.fail("argument-modified", "encode changed its %s; k=%d start=%d graph=%s table=%s" % (guard.changed(), k, start, case["arcs"], case["table"]))
     if not _report(ctx, out, "encode"):
         if out.kind != "ok":
             ctx.fail("encode-" + out.kind, "encode %s; reference strand %s" % (out.describe(), ref))
@@ -296,7 +300,10 @@ def check_decode_walk(ctx, case):
             ctx.cls("decode|trailing zero digit")
     before = contracts.EVALS["decode.ensure.bits_are_reference"]
     width = ctx.rng.choice([int, int, int, np.int64, np.uint16, np.uint64])(L) if L < 60000 else L
+    guard = ArgGuard(accessor=acc, shuffles=shuf)
     out = monitored(dsw.decode, decode_budget(len(strand), L), strand, width, acc, _typed_start(ctx, start), is_faster=fast, shuffles=shuf)
+    if guard.changed():
+        ctx.fail("argument-modified", "decode changed its %s; k=%d start=%d graph=%s table=%s" % (guard.changed(), k, start, case["arcs"], case["table"]))
     ctx.cls("decode|width type %s" % type(width).__name__)
     if contracts.EVALS["decode.ensure.bits_are_reference"] == before and out.kind == "ok":
         ctx.fail("contract-bypassed", "decode returned without evaluating its postcondition")
